@@ -114,10 +114,17 @@ class RecDict(dict):
         dict.__setitem__(self, k, v)
 
     def __delitem__(self, k):
+        # deleting reads the presence of the key first: a double delete is a read of another thread's write
+        _event('r', _oid(self), '*', ('has', repr(k), dict.__contains__(self, k)))
         _event('w', _oid(self), '*', ('del', repr(k)))
         dict.__delitem__(self, k)
 
+    def __len__(self):
+        _event('r', _oid(self), '*', ('len', dict.__len__(self)))
+        return dict.__len__(self)
+
     def pop(self, *a):
+        _event('r', _oid(self), '*', ('has', repr(a[0]), dict.__contains__(self, a[0])))
         _event('w', _oid(self), '*', ('pop', repr(a[0])))
         return dict.pop(self, *a)
 
@@ -202,6 +209,7 @@ class RecSet(set):
         set.discard(self, x)
 
     def remove(self, x):
+        _event('r', _oid(self), '*', ('has', repr(x), set.__contains__(self, x)))
         _event('w', _oid(self), '*', ('remove', repr(x)))
         set.remove(self, x)
 
@@ -373,15 +381,13 @@ def trace(fn):
     return ev, res
 
 
-def find_interference(traces, timeout_ms=30000):
-    """traces: list (one per thread) of event lists.  Returns (verdict, schedule, info); schedule = list of
-    (thread, index) in time order for `sat`."""
+def _encode(traces, timeout_ms):
     s = z3.Solver()
     s.set('timeout', timeout_ms)
     ts = [[z3.Int(f't{t}_{i}') for i in range(len(tr))] for t, tr in enumerate(traces)]
     allv = [v for row in ts for v in row]
     if not allv:
-        return 'unsat', None, 'no shared accesses'
+        return None, ts, []
     s.add(z3.Distinct(*allv))
     for row in ts:
         for i in range(len(row)):
@@ -408,17 +414,65 @@ def find_interference(traces, timeout_ms=30000):
                 for (u2, j2, _) in ws:
                     if (u2, j2) != (u, j):
                         between.append(z3.And(ts[u][j] < ts[u2][j2], ts[u2][j2] < ts[t][i]))
-                cands.append(z3.And(ts[u][j] < ts[t][i], z3.Not(z3.Or(*between)) if between else z3.BoolVal(True)))
+                cands.append(((t, i, u, j), z3.And(ts[u][j] < ts[t][i],
+                                                   z3.Not(z3.Or(*between)) if between else z3.BoolVal(True))))
+    return s, ts, cands
+
+
+def _order(m, ts, traces):
+    order = sorted(((m.eval(ts[t][i], model_completion=True).as_long(), t, i)
+                    for t in range(len(traces)) for i in range(len(traces[t]))))
+    return [(t, i) for _, t, i in order]
+
+
+def find_interference(traces, timeout_ms=30000):
+    """traces: list (one per thread) of event lists.  Returns (verdict, schedule, info); schedule = list of
+    (thread, index) in time order for `sat`."""
+    s, ts, cands = _encode(traces, timeout_ms)
+    if s is None:
+        return 'unsat', None, 'no shared accesses'
     if not cands:
         return 'unsat', None, 'no read can observe a foreign write of a different value'
-    s.add(z3.Or(*cands))
+    s.add(z3.Or(*[c for _, c in cands]))
     r = str(s.check())
     if r != 'sat':
         return r, None, f'{len(cands)} read-from candidates'
-    m = s.model()
-    order = sorted(((m.eval(ts[t][i], model_completion=True).as_long(), t, i)
-                    for t in range(len(traces)) for i in range(len(traces[t]))))
-    return 'sat', [(t, i) for _, t, i in order], f'{len(cands)} read-from candidates'
+    return 'sat', _order(s.model(), ts, traces), f'{len(cands)} read-from candidates'
+
+
+def find_interferences(traces, limit=8, timeout_ms=30000):
+    """Several schedules per combination: one z3 query per read-from candidate (earliest events first), each asking for
+    the least perturbed interleaving that realises it — the reading thread runs undisturbed up to the read, the writing
+    thread runs up to the write, the read follows.  Returns (verdict, [schedule, ...], info)."""
+    s, ts, cands = _encode(traces, timeout_ms)
+    if s is None:
+        return 'unsat', [], 'no shared accesses'
+    if not cands:
+        return 'unsat', [], 'no read can observe a foreign write of a different value'
+    out, seen, unknown = [], set(), 0
+    for (t, i, u, j), c in sorted(cands, key=lambda x: (x[0][1] + x[0][3], x[0]))[:limit * 3]:
+        if len(out) >= limit:
+            break
+        s.push()
+        s.add(c)
+        if i > 0:
+            s.add(ts[t][i - 1] < ts[u][0])          # the reader is not disturbed before the read
+        s.add(*[ts[t][i] < ts[u][k] for k in range(j + 1, len(traces[u]))][:1])   # the read follows the write directly
+        r = str(s.check())
+        if r == 'sat':
+            sch = _order(s.model(), ts, traces)
+            key = tuple(sch)
+            if key not in seen:
+                seen.add(key)
+                out.append(sch)
+        elif r != 'unsat':
+            unknown += 1
+        s.pop()
+    if not out:
+        # the canonical shapes were infeasible (three threads): fall back to the unconstrained query
+        v, sch, info = find_interference(traces, timeout_ms)
+        return v, ([sch] if sch else []), info
+    return 'sat', out, f'{len(cands)} read-from candidates, {len(out)} schedules' + (f', {unknown} unknown' if unknown else '')
 
 
 class Scheduler:
